@@ -90,7 +90,6 @@ pub fn from_into(j: &J) -> Result<(bool, Vec<&'static str>), (String, Option<&'s
 		}
 	}
 	texts(j, &v, "$").map_err(|m| (format!("from_serde_json: {m}"), None))?;
-	crate::objquery::self_consistent(&v).map_err(|m| (format!("from_serde_json(j) is not queryable by key: {m}"), None))?;
 	let back = guarded(|| v.clone().into_serde_json()).map_err(|p| (format!("into_serde_json panicked: {p}"), None))?;
 	// the generic serde routes between the two value types (`to_value(&serde_json_value)`, `from_value::<serde_json::Value>`)
 	// must agree with the dedicated conversions wherever both are exact: integer-only values without the private token
@@ -197,20 +196,8 @@ pub fn into_from(v: &RefValue) -> Result<(bool, Vec<&'static str>), (String, Opt
 	} else if let Some(o) = value.as_object_mut() {
 		o.sort();
 	}
-	crate::objquery::self_consistent(&value).map_err(|m| (format!("value canonicalized/sorted before the conversion is not queryable by key: {m}"), None))?;
 	let model = RefValue::from_value(&value);
-	let r = into_from_value(&model, value.clone());
-	// library-level comparison of the round trip as well (integer-only values keep their spelling)
-	let mut nums = vec![];
-	model.all_numbers(&mut nums);
-	if r.is_ok() && nums.iter().all(|n| n.parse::<i64>().map(|i| i.to_string() == **n).unwrap_or(false)) {
-		use json_syntax::BorrowUnordered;
-		let back = Value::from_serde_json(value.clone().into_serde_json());
-		if back.as_unordered() != value.as_unordered() {
-			return Err(("from_serde_json(into_serde_json(v)) is not unordered-equal to the canonicalized/sorted v".into(), None));
-		}
-	}
-	r
+	into_from_value(&model, value)
 }
 
 fn into_from_value(v: &RefValue, value: Value) -> Result<(bool, Vec<&'static str>), (String, Option<&'static str>)> {
